@@ -1163,7 +1163,13 @@ func toolCase(t *tr.Trace, r *tr.Rand, alg int) {
 		h.login(sp("tool"), genPassword(r))
 		return
 	}
-	// ... and no other does (tested only)
+	// ... and no other does (tested only).  With a derived key of a few bytes
+	// (the tool accepts any -key length) another password verifies by chance
+	// (1 in 256 for one byte): that is arithmetic, not a defect
+	if alg == 0 && klen < 8 {
+		t.Note("hash_no_other-skipped-short-key")
+		return
+	}
 	for i := 0; i < 6; i++ {
 		other := mutate(r, pw)
 		if i == 0 {
